@@ -1,4 +1,97 @@
 //! Kani proof harnesses compiled as a child module of vrp-pragmatic/src/validation/common.rs (cfg(kani) only).
+//!
+//! C10 (time-window rule kernel, documented as E1103 and reused by E1302/E1303/E1304): a list of time windows is
+//! accepted exactly when every element is a parsed window, every window has start <= end and - unless the
+//! intersection check is skipped - no two windows intersect.
+use super::*;
+
+fn any_tw() -> TimeWindow {
+    let (s, e): (i16, i16) = (kani::any(), kani::any());
+    TimeWindow::new(s as f64, e as f64)
+}
+
+/// The documented rule, written pairwise (no sorting): all valid and no two windows share a point.
+fn spec(tws: &[Option<TimeWindow>], skip_intersection_check: bool) -> bool {
+    let n = tws.len();
+    let mut i = 0;
+    while i < n {
+        let Some(a) = tws[i].as_ref() else { return false };
+        if !(a.start <= a.end) {
+            return false;
+        }
+        let mut j = i + 1;
+        while j < n {
+            let Some(b) = tws[j].as_ref() else { return false };
+            if !skip_intersection_check && a.start <= b.end && b.start <= a.end {
+                return false;
+            }
+            j += 1;
+        }
+        i += 1;
+    }
+    true
+}
+
+fn rule<const N: usize>() {
+    let mut tws: Vec<Option<TimeWindow>> = Vec::new();
+    let mut idx = 0;
+    while idx < N {
+        let parsed: bool = kani::any();
+        tws.push(if parsed { Some(any_tw()) } else { None });
+        idx += 1;
+    }
+    let skip: bool = kani::any();
+
+    let accepted = check_time_windows(&tws, skip);
+    let expected = spec(&tws, skip);
+
+    kani::cover!(accepted, "accepted");
+    kani::cover!(!accepted && tws.iter().all(|tw| tw.is_some()), "rejected-by-rule");
+    assert!(accepted == expected);
+    std::mem::forget(tws);
+}
+
+// @verif props=C10 tier=quick ob=tw_rule fn=check_time_windows,TimeWindow::intersects bounds="1 window, bounds any i16 as f64, element may be unparsable"
+#[kani::proof]
+#[kani::unwind(4)]
+fn c10_time_windows_rule_n1() {
+    rule::<1>();
+}
+
+// @verif props=C10 tier=quick ob=tw_rule fn=check_time_windows,TimeWindow::intersects bounds="2 windows, bounds any i16 as f64, elements may be unparsable"
+#[kani::proof]
+#[kani::unwind(5)]
+fn c10_time_windows_rule_n2() {
+    rule::<2>();
+}
+
+// @verif props=C10 tier=quick ob=tw_rule fn=check_time_windows,TimeWindow::intersects bounds="3 windows, bounds any i16 as f64, elements may be unparsable"
+#[kani::proof]
+#[kani::unwind(6)]
+fn c10_time_windows_rule_n3() {
+    rule::<3>();
+}
+
+// @verif props=C10 tier=thorough ob=tw_rule fn=check_time_windows,TimeWindow::intersects bounds="4 windows, bounds any i16 as f64, elements may be unparsable"
+#[kani::proof]
+#[kani::unwind(7)]
+fn c10_time_windows_rule_n4() {
+    rule::<4>();
+}
+
+// @verif props=C10 tier=quick ob=tw_total fn=check_time_windows bounds="0 windows / arbitrary f64 bit patterns (NaN, inf) in 2 windows: no panic"
+#[kani::proof]
+#[kani::unwind(5)]
+fn c10_time_windows_total() {
+    let skip: bool = kani::any();
+    // the documentation does not say whether an empty list is allowed; only totality is demanded here
+    let _ = check_time_windows(&[], skip);
+    let tws = vec![Some(TimeWindow::new(kani::any(), kani::any())), Some(TimeWindow::new(kani::any(), kani::any()))];
+    let accepted = check_time_windows(&tws, skip);
+    kani::cover!(accepted, "accepted");
+    kani::cover!(!accepted, "rejected");
+    std::mem::forget(tws);
+}
 
 // Concrete-playback replays (`cargo kani playback`) are compiled from here; the file is written by /verif/check.
 #[cfg(all(kani, test))]
